@@ -2,7 +2,7 @@
 // SPDX-License-Identifier: Apache-2.0
 // Copyright (c) A5 contributors
 
-use crate::core::serialization::FIRST_HILBERT_RESOLUTION;
+use crate::core::serialization::{FIRST_HILBERT_RESOLUTION, MAX_RESOLUTION};
 
 const AUTHALIC_AREA: f64 = 510065624779439.1; // m^2 - matches JavaScript Math.PI precision
 
@@ -16,7 +16,7 @@ const AUTHALIC_AREA: f64 = 510065624779439.1; // m^2 - matches JavaScript Math.P
 ///
 /// Number of cells at the given resolution
 pub fn get_num_cells(resolution: i32) -> u64 {
-    if resolution < 0 {
+    if !(0..=MAX_RESOLUTION).contains(&resolution) {
         return 0;
     }
     if resolution == 0 {
